@@ -98,7 +98,7 @@ def cold_run(d: str, flags: list[str], targets: list[str], true_cold: bool = Fal
 
 def run_history(versions: list[dict[str, str]], flags: list[str], targets: list[str], config: str = "sqlite-bin",
                 skip_runs: list[int] | None = None, true_cold_steps: list[int] | None = None,
-                flags_per_step: list[list[str]] | None = None) -> dict[str, Any]:
+                flags_per_step: list[list[str]] | None = None, mtime_back: list[bool] | None = None) -> dict[str, Any]:
     """Warm run after every step (except skip_runs) on one persistent cache dir; cold oracle at each run."""
     cfg = CONFIGS[config]
     d = basic.fresh_dir("inc")
@@ -107,7 +107,7 @@ def run_history(versions: list[dict[str, str]], flags: list[str], targets: list[
         cache = os.path.join(d, ".warm_cache")
         prev: dict[str, str] = {}
         for i, files in enumerate(versions):
-            changed = sync_files(d, prev, files, i)
+            changed = sync_files(d, prev, files, i, backwards=bool(mtime_back and i < len(mtime_back) and mtime_back[i]))
             prev = files
             if skip_runs and i in skip_runs:
                 continue
